@@ -32,6 +32,77 @@ def simp(e):
     return z3.simplify(e)
 
 
+_NONLINEAR = {z3.Z3_OP_BMUL: "mul", z3.Z3_OP_BSDIV: "sdiv", z3.Z3_OP_BUDIV: "udiv", z3.Z3_OP_BSREM: "srem", z3.Z3_OP_BUREM: "urem",
+              z3.Z3_OP_BSDIV_I: "sdiv", z3.Z3_OP_BUDIV_I: "udiv", z3.Z3_OP_BSREM_I: "srem", z3.Z3_OP_BUREM_I: "urem"}
+
+
+def abstract_nonlinear(conds):
+    """Replace every bvmul/div/rem whose operands are both non-constant by an application of an uninterpreted function
+    (one per operator and width). Returns the rewritten list, or None when nothing was replaced. The simplifier is run
+    first so that syntactically different spellings of the same product get a chance to meet."""
+    cache = {}
+    ufs = {}
+    hit = [False]
+    apps = []
+
+    def uf(nm, w):
+        f = ufs.get(nm)
+        if f is None:
+            f = ufs[nm] = z3.Function("uf_" + nm, z3.BitVecSort(w), z3.BitVecSort(w), z3.BitVecSort(w))
+        return f
+
+    def walk(e):
+        k = e.get_id()
+        if k in cache:
+            return cache[k]
+        if not z3.is_app(e) or e.num_args() == 0:
+            cache[k] = e
+            return e
+        ch = [walk(c) for c in e.children()]
+        kind = e.decl().kind()
+        r = None
+        if kind in _NONLINEAR and z3.is_bv(e):
+            nonconst = [c for c in ch if not z3.is_bv_value(c)]
+            if len(nonconst) >= 2 and len(ch) == 2:
+                w = e.size()
+                nm = "%s%d" % (_NONLINEAR[kind], w)
+                a, b = ch
+                r = uf(nm, w)(a, b)
+                if kind == z3.Z3_OP_BMUL:
+                    apps.append((w, a, b))
+                hit[0] = True
+        if r is None:
+            if any(c.get_id() != o.get_id() for c, o in zip(ch, e.children())):
+                arr = (z3.Ast * len(ch))(*[c.as_ast() for c in ch])
+                r = z3.z3._to_expr_ref(z3.Z3_mk_app(e.ctx.ref(), e.decl().ast, len(ch), arr), e.ctx)
+            else:
+                r = e
+        cache[k] = r
+        return r
+
+    out = [walk(simp(c)) for c in conds]
+    if not hit[0]:
+        return None
+    # sound facts about multiplication that the abstraction would otherwise forget: it is commutative, and the low k bits
+    # of a product are the product of the low k bits (compilers narrow (int)((long)a * b) to a 32-bit multiply)
+    widths = sorted(set(w for w, _, _ in apps))
+    seen = set()
+    for w, a, b in list(apps):
+        for w2 in widths:
+            if w2 < w:
+                lo = lambda x: simp(z3.Extract(w2 - 1, 0, x))
+                out.append(z3.Extract(w2 - 1, 0, uf("mul%d" % w, w)(a, b)) == uf("mul%d" % w2, w2)(lo(a), lo(b)))
+                apps.append((w2, lo(a), lo(b)))
+    for w, a, b in apps:
+        key = (w, a.get_id(), b.get_id())
+        if key in seen:
+            continue
+        seen.add(key)
+        f = uf("mul%d" % w, w)
+        out.append(f(a, b) == f(b, a))
+    return out
+
+
 class Frame:
     __slots__ = ("fn", "block", "prev", "ip", "regs", "dst", "unwind_to")
 
@@ -607,6 +678,18 @@ class Engine:
             if getattr(self, "recheck_budget", 0) > 0:
                 self.second_opinion(conds)
             return "unsat", None
+        # symbolic-by-symbolic multiplication / division stalls bit-blasting: retry with those operators replaced by
+        # uninterpreted functions. unsat under the abstraction implies unsat of the original (the abstraction only
+        # forgets facts about the operators); anything else stays unknown.
+        ab = abstract_nonlinear(conds)
+        if ab is not None:
+            t0 = time.time()
+            self.queries += 1
+            r2, _ = self._fresh_check(ab)
+            self.solver_time += time.time() - t0
+            if r2 == z3.unsat:
+                self.abstracted = getattr(self, "abstracted", 0) + 1
+                return "unsat", None
         return "unknown", None
 
     def second_opinion(self, conds):
